@@ -80,7 +80,7 @@ func lineLengths(text string) []int {
 func (c *Ctx) editorCase(text string, extra map[string]any) {
 	o1, res := runCheck(text)
 	o2, _ := runCheck(text)
-	pr := parser.Parse(text)
+	pr := parseSafe(text)
 	lens := lineLengths(text)
 	var ls, hs, gs []string
 	panics := 0
